@@ -235,6 +235,17 @@ def real_case(rng, acc, d):
         acc.violation("annotate-keys", f"annotate keys != diff paths + existing paths: {sorted(map(str, set(ann) ^ (existing | diffpaths)))[:3]}",
                       {"kind": "real", "seed": None})
         return
+    # the changed entries of the annotated listing come in the order of nodes() (the update order a packer follows)
+    listed = [p for p, n in ann.items() if n is not None]
+    want_order = [] if dd.is_empty else [base / str(n.path) for n in dd._diff_root.nodes()]
+    if listed != want_order:
+        k = next((i for i, (a, b) in enumerate(zip(listed, want_order)) if a != b), min(len(listed), len(want_order)))
+        acc.violation("annotate-order", f"annotate lists the changed paths in another order than nodes(): position {k}: "
+                      f"{[str(x.relative_to(base)) for x in listed[k:k + 3]]} vs {[str(x.relative_to(base)) for x in want_order[k:k + 3]]}", {"kind": "real"})
+        return
+    if not dd.is_empty and any(ann[p] is not n for p, n in zip(want_order, dd._diff_root.nodes())):
+        acc.violation("annotate-node", "annotate maps a changed path to another node than nodes() lists for it", {"kind": "real"})
+        return
     f0, f1 = flat(h0), flat(h1)
     for p, n in ann.items():
         rel = p.relative_to(base)
